@@ -80,20 +80,59 @@ def kick_case(cid, axis, n, it, nb, lb, off, data, parts=None):
     return "\n".join(lines) + "\n"
 
 
+def harness_env():
+    env = dict(os.environ)
+    env["ASAN_OPTIONS"] = "detect_leaks=0:abort_on_error=0"
+    env["UBSAN_OPTIONS"] = "print_stacktrace=1"
+    env["XDG_DATA_HOME"] = os.path.join(CACHE, "xdg")
+    os.makedirs(env["XDG_DATA_HOME"], exist_ok=True)
+    return env
+
+
+def add_aux(optext, impl_lines):
+    """Insert the library values (`aux`/`aux2` lines) the implementation printed for a case
+    before that case's `run` line, so that the model uses the same tan/sin/pow values."""
+    aux = {}
+    cur = None
+    for l in impl_lines:
+        if l.startswith("case "):
+            cur = l.split()[1]
+        elif cur is not None and (l.startswith("aux ") or l.startswith("aux2 ") or l == "aux2"):
+            aux.setdefault(cur, []).append(l)
+    if not aux:
+        return optext
+    out = []
+    cur = None
+    for l in optext.split("\n"):
+        t = l.split()
+        if t and t[0] == "run":
+            for a in aux.get(cur, []):
+                out.append(a)
+        elif t and t[0] not in ("off", "data", "extra", "parts", "aux", "aux2") and not t[0].startswith("#"):
+            cur = t[1] if len(t) > 1 else None
+        out.append(l)
+    return "\n".join(out)
+
+
 def run_both(harness, optext, tag):
-    """Run harness and Lean driver on the same op file; return (impl_lines, model_lines, rc, stderr)."""
+    """Run harness and Lean driver on the same op file (the model additionally receives the
+    library values printed by the implementation as `aux` lines);
+    returns (impl_lines, model_lines, rc, stderr, rc_model, stderr_model)."""
     os.makedirs(CACHE, exist_ok=True)
     path = os.path.join(CACHE, "ops_%s_%d.txt" % (tag, os.getpid()))
     with open(path, "w") as f:
         f.write(optext)
-    env = dict(os.environ)
-    env["ASAN_OPTIONS"] = "detect_leaks=0:abort_on_error=0"
-    env["UBSAN_OPTIONS"] = "print_stacktrace=1"
-    env.setdefault("XDG_DATA_HOME", os.path.join(CACHE, "xdg"))
-    p = subprocess.run([harness, path], stdout=subprocess.PIPE, stderr=subprocess.PIPE, text=True, env=env)
+    p = subprocess.run([harness, path], stdout=subprocess.PIPE, stderr=subprocess.PIPE, text=True,
+                       env=harness_env())
+    impl = p.stdout.split("\n")
+    mtext = add_aux(optext, impl)
+    if mtext != optext:
+        with open(path, "w") as f:
+            f.write(mtext)
     q = subprocess.run([driver_path(), path], stdout=subprocess.PIPE, stderr=subprocess.PIPE, text=True)
     os.remove(path)
-    return p.stdout.split("\n"), q.stdout.split("\n"), p.returncode, p.stderr, q.returncode, q.stderr
+    impl = [l for l in impl if not (l.startswith("aux ") or l.startswith("aux2"))]
+    return impl, q.stdout.split("\n"), p.returncode, p.stderr, q.returncode, q.stderr
 
 
 def split_cases(lines):
